@@ -70,7 +70,10 @@ fn project(e: &E, ty: &str) -> Option<E> {
 }
 
 /// ids the plain query `QUERY ty WHERE <projected>` returns: what the sequence sub-query delivers
-fn delivered(s: &mut Session, ty: &str, wh: &Option<E>) -> Option<BTreeSet<i64>> {
+/// cells of a delivered row that sequence matching depends on: k, t, x, s
+type Cells = (Option<i64>, Option<i64>, Option<i64>, Option<String>);
+
+fn delivered(s: &mut Session, ty: &str, wh: &Option<E>) -> Option<BTreeMap<i64, Cells>> {
     let q = match wh.as_ref().and_then(|e| project(e, ty)) {
         Some(e) => format!("QUERY {ty} WHERE {}", e.text()),
         None => format!("QUERY {ty}"),
@@ -79,7 +82,15 @@ fn delivered(s: &mut Session, ty: &str, wh: &Option<E>) -> Option<BTreeSet<i64>>
     if !r.ok() {
         return None;
     }
-    Some(r.col("id").iter().filter_map(|v| v.as_i64()).collect())
+    let (id, k, t, x, sv) = (r.col("id"), r.col("k"), r.col("t"), r.col("x"), r.col("s"));
+    let mut out = BTreeMap::new();
+    for i in 0..r.rows.len() {
+        if let Some(idv) = id.get(i).and_then(|v| v.as_i64()) {
+            let cell = |c: &Vec<serde_json::Value>| c.get(i).and_then(|v| v.as_i64());
+            out.insert(idv, (cell(&k), cell(&t), cell(&x), sv.get(i).and_then(|v| v.as_str()).map(|s| s.to_string())));
+        }
+    }
+    Some(out)
 }
 
 fn zone_of(evs: &[&Ev]) -> Zone {
@@ -209,8 +220,10 @@ impl Job {
         let mut j = Judged { failures: vec![], op: "skip".into(), imp: "skip".into(), nontrivial: false, pairs: 0, judged_a: 0, notes: vec![] };
 
         // what the sub-queries delivered vs. the specification's filter (C02's subject)
-        let spec_a: BTreeSet<i64> = ra.iter().zip(eva.iter()).filter(|(row, _)| super::side(wh, ta, row)).map(|(_, e)| e.id).collect();
-        let spec_b: BTreeSet<i64> = rb.iter().zip(evb.iter()).filter(|(row, _)| super::side(wh, tb, row)).map(|(_, e)| e.id).collect();
+        // (ids and the stored values of k, t, x, s: a delivered row with a lost cell differs too)
+        let cells = |e: &Ev| -> Cells { (e.k, Some(e.t), Some(e.x), Some(e.s.clone())) };
+        let spec_a: BTreeMap<i64, Cells> = ra.iter().zip(eva.iter()).filter(|(row, _)| super::side(wh, ta, row)).map(|(_, e)| (e.id, cells(e))).collect();
+        let spec_b: BTreeMap<i64, Cells> = rb.iter().zip(evb.iter()).filter(|(row, _)| super::side(wh, tb, row)).map(|(_, e)| (e.id, cells(e))).collect();
         let (del_a, del_b) = match (del_a, del_b) {
             (Some(x), Some(y)) => (x, y),
             _ => {
@@ -271,8 +284,8 @@ impl Job {
 
         // model comparison where the answer is determined: the matcher on the delivered rows
         let key = |e: &Ev| e.k.map(|k| format!("i64:{k}")).unwrap_or_else(|| "str:null".into());
-        let da: Vec<&Ev> = eva.iter().cloned().filter(|e| del_a.contains(&e.id)).collect();
-        let db: Vec<&Ev> = evb.iter().cloned().filter(|e| del_b.contains(&e.id)).collect();
+        let da: Vec<&Ev> = eva.iter().cloned().filter(|e| del_a.contains_key(&e.id)).collect();
+        let db: Vec<&Ev> = evb.iter().cloned().filter(|e| del_b.contains_key(&e.id)).collect();
         let mut group_times: BTreeMap<(String, bool), Vec<i64>> = BTreeMap::new();
         let mut earliest: BTreeMap<String, i64> = BTreeMap::new();
         for e in da.iter().chain(db.iter()) {
@@ -308,7 +321,12 @@ impl Job {
         if !observed_ok {
             j.notes.push("delivered-rows-observation-inconsistent");
         }
-        let determined = self.ret.is_none() && !ties_in_group && ev.len() == n_ev && !has_dups && observed_ok && stable && answer_stable;
+        // the model is fed the stored values: only sound when the delivered cells equal them
+        let cells_ok = da.iter().all(|e| del_a.get(&e.id) == Some(&cells(e))) && db.iter().all(|e| del_b.get(&e.id) == Some(&cells(e)));
+        if !cells_ok {
+            j.notes.push("delivered-row-with-lost-cell");
+        }
+        let determined = self.ret.is_none() && !ties_in_group && ev.len() == n_ev && !has_dups && observed_ok && stable && answer_stable && cells_ok;
         if determined {
             j.notes.push("compared-with-model");
             let order: Vec<String> = earliest.keys().cloned().collect();
